@@ -405,7 +405,9 @@ impl Rect {
             }
         }
 
-        let mut accum = f32x4::default();
+        // Seed with the first lanes too, so that a NaN/infinity in the first point(s)
+        // is not lost (f32::min/max ignore NaN).
+        let mut accum = min * f32x4::default();
         while offset != points.len() {
             let pt0 = points[offset + 0];
             let pt1 = points[offset + 1];
